@@ -37,6 +37,7 @@ func (P) Monitor(c *hx.CaseRun) []hx.Failure {
 		from  int
 		nonce int
 		w, in int
+		more  []int // further DISTINCT inputs of a multi-input spend (indices into the wallet's outputs)
 	}
 	info := map[int]txinfo{}
 	committedTx := map[int]int{}
@@ -80,7 +81,22 @@ func (P) Monitor(c *hx.CaseRun) []hx.Failure {
 				am, _ := hx.Arg(toks, "amount")
 				ainAmount[id], _ = strconv.ParseInt(am, 10, 64)
 			}
-			info[id] = txinfo{kind: toks[0], from: geti(toks, "from"), nonce: geti(toks, "nonce"), w: geti(toks, "w"), in: geti(toks, "in")}
+			ti := txinfo{kind: toks[0], from: geti(toks, "from"), nonce: geti(toks, "nonce"), w: geti(toks, "w"), in: geti(toks, "in")}
+			if m, ok := hx.Arg(toks, "more"); ok {
+				seen := map[int]bool{ti.in: true}
+				for _, x := range hx.SplitComma(m) {
+					if j, err := strconv.Atoi(x); err == nil && !seen[j] {
+						seen[j] = true
+						ti.more = append(ti.more, j)
+					}
+				}
+			}
+			info[id] = ti
+		}
+		if toks[0] == "block" && strings.Contains(ans, "=panic") {
+			// a block built from the node's OWN mempool must execute (a forced block may be refused: that is its expected fate)
+			fs = append(fs, hx.Failure{Monitor: "no_panic", Class: "own-proposal-fails", Site: "app/state_processor.go:checkValid",
+				Msg: "the block proposed from the mempool does not execute: " + ans})
 		}
 		if strings.HasPrefix(ans, "panic") {
 			fs = append(fs, hx.Failure{Monitor: "no_panic", Class: "panic:" + ans, Site: "app", Msg: op})
@@ -139,11 +155,13 @@ func (P) Monitor(c *hx.CaseRun) []hx.Failure {
 				}
 				switch ti.kind {
 				case "uu", "ua":
-					k := fmt.Sprintf("w%d.%d", ti.w, ti.in)
-					spentOut[k]++
-					if spentOut[k] > 1 {
-						fs = append(fs, hx.Failure{Monitor: "keyimage_once", Class: "output-spent-twice", Site: "app/state_processor.go:checkValid",
-							Msg: "confidential output " + k + " was spent by two committed transactions"})
+					for _, in := range append([]int{ti.in}, ti.more...) { // EVERY input of the committed transaction
+						k := fmt.Sprintf("w%d.%d", ti.w, in)
+						spentOut[k]++
+						if spentOut[k] > 1 {
+							fs = append(fs, hx.Failure{Monitor: "keyimage_once", Class: "output-spent-twice", Site: "app/state_processor.go:checkValid",
+								Msg: "confidential output " + k + " was spent by two committed transactions"})
+						}
 					}
 				case "xfer", "xfertok", "ain", "call", "create", "mcall", "calltok", "xferx":
 					if ti.nonce != nextNonce[ti.from] {
@@ -165,6 +183,9 @@ func (P) Generate(g *hx.Gen) {
 	}
 	for k, nc := 0, g.Pick(40, 300); k < nc; k++ {
 		g.Case("contract transactions re-offered", c06.WithReceipts(ContractReuse(g)), true)
+	}
+	for k, ns := 0, g.Pick(40, 300); k < ns; k++ {
+		g.Case("multi-input spends of DISTINCT outputs, every input then spent again", c06.WithReceipts(MultiInputCase(g)), true)
 	}
 	for k, ns := 0, g.Pick(40, 300); k < ns; k++ {
 		g.Case("forced blocks with off-nonce transactions of every nonce-consuming kind", c06.WithReceipts(c06.NonceGapCase(g)), true)
@@ -466,6 +487,118 @@ func SysReuse(g *hx.Gen) []string {
 				}
 			}
 		}
+	}
+	return ops
+}
+
+// MultiInputCase: confidential spends with SEVERAL inputs naming DISTINCT outputs of the wallet (2 and 3 inputs; the amounts add),
+// committed through the mempool or in a forced block; then EVERY ONE of its inputs is spent again alone (double-spend at
+// admission, refused in a forced block, also after a restart and replayed); two multi-input spends sharing one input in one
+// forced block (both orders); a multi-input spend whose FIRST / whose LAST input is already spent.  Ids and indices are exact:
+// wallet 0 is funded with F outputs (indices 0..F-1); everything else it receives has higher indices and is not used.
+func MultiInputCase(g *hx.Gen) []string {
+	r := g.Rng
+	ops := []string{hx.CaseOp("multi"), fmt.Sprintf("chain trie=%d accts=3 wallets=2 seed=%d code=1", r.Intn(2), 1+r.Intn(1000))}
+	add := func(f string, a ...interface{}) { ops = append(ops, fmt.Sprintf(f, a...)) }
+	nonce := []int{0, 0, 0}
+	id := 0
+	F := 6 + r.Intn(3)
+	for i := 0; i < F; i++ {
+		from := i % 3
+		add("ain from=%d w=0 amount=%d nonce=%d", from, 30000000000+r.Intn(1000)*10000, nonce[from])
+		nonce[from]++
+		id++
+	}
+	add("block")
+	add("bal")
+	free := r.Perm(F) // unspent funded outputs
+	take := func(n int) []int {
+		if len(free) < n {
+			return nil
+		}
+		t := free[:n]
+		free = free[n:]
+		return t
+	}
+	list := func(xs []int) string {
+		var ss []string
+		for _, x := range xs {
+			ss = append(ss, fmt.Sprint(x))
+		}
+		return strings.Join(ss, ",")
+	}
+	spend := func(ins []int) int { // a spend of ins[0] with more=ins[1:]
+		op := []string{"uu", "ua"}[r.Intn(2)]
+		to := r.Intn(2)
+		if op == "ua" {
+			to = r.Intn(3)
+		}
+		line := fmt.Sprintf("%s w=0 in=%d", op, ins[0])
+		if len(ins) > 1 {
+			line += " more=" + list(ins[1:])
+		}
+		add("%s to=%d amount=%d", line, to, 1+r.Intn(1000000))
+		id++
+		return id - 1
+	}
+	var spentIns []int // inputs of committed multi-input spends
+	for k, n := 0, 2+r.Intn(2); k < n; k++ {
+		ins := take(2 + r.Intn(2))
+		if ins == nil {
+			break
+		}
+		g.Count(fmt.Sprintf("multi:%d-inputs", len(ins)))
+		m := spend(ins)
+		if r.Intn(2) == 0 {
+			add("block")
+		} else {
+			add("forceblock ids=%d", m)
+			add("block")
+		}
+		add("bal")
+		spentIns = append(spentIns, ins...)
+		// every input again, alone: refused at admission and in a forced block
+		for _, in := range ins {
+			a := spend([]int{in})
+			add("forceblock ids=%d", a)
+			g.Stats["reinclusion-attempts"]++
+		}
+		add("block")
+		if r.Intn(2) == 0 {
+			add("restart")
+			a := spend([]int{ins[r.Intn(len(ins))]})
+			add("replay id=%d", a)
+			add("forceblock ids=%d", a)
+			add("forceblock ids=%d", m)
+			add("block")
+		}
+		switch r.Intn(3) {
+		case 0: // a multi-input spend whose FIRST input is already spent
+			if x := take(1); x != nil {
+				a := spend([]int{ins[0], x[0]})
+				add("forceblock ids=%d", a)
+				free = append(free, x...)
+			}
+		case 1: // ... whose LAST input is already spent
+			if x := take(1); x != nil {
+				a := spend([]int{x[0], ins[len(ins)-1]})
+				add("forceblock ids=%d", a)
+				free = append(free, x...)
+			}
+		default: // two multi-input spends sharing one input, in one forced block, both orders; then one of them alone
+			if x := take(3); x != nil {
+				a := spend([]int{x[0], x[1]})
+				b := spend([]int{x[2], x[1]}) // refused by the mempool: x[1] is pending
+				add("forceblock ids=%d,%d", a, b)
+				add("forceblock ids=%d,%d", b, a)
+				add("forceblock ids=%d", b)
+				add("block") // a is still pending unless the foreign block spent its input: rechecked
+				spentIns = append(spentIns, x[1], x[2])
+				g.Count("multi:shared-input-in-one-block")
+			}
+		}
+		add("bal")
+		add("nonces")
 	}
 	return ops
 }
